@@ -399,7 +399,7 @@ def run_one(payload):
     cs = ChoiceSource(seed, replay=payload.get('choices'))
     tier = payload.get('tier', 'quick')
     templates = _state['templates']
-    h = gen_history(cs, templates, tier, payload.get('force'))
+    h = payload.get('history') or gen_history(cs, templates, tier, payload.get('force'))    # (explicit history: hand-written scenarios)
     refdir = os.environ.get('DSIM_REFDIR') or tempfile.mkdtemp(prefix='dsim-ref-', dir=K.scratch_root())
     os.makedirs(refdir, exist_ok=True)
     sandbox = K.make_sandbox('h', seed)
